@@ -25,6 +25,7 @@ import (
 
 	sdkmath "cosmossdk.io/math"
 	tmproto "github.com/cometbft/cometbft/proto/tendermint/types"
+	servertypes "github.com/cosmos/cosmos-sdk/server/types"
 	sdk "github.com/cosmos/cosmos-sdk/types"
 	"github.com/ethereum/go-ethereum/common"
 	ethtypes "github.com/ethereum/go-ethereum/core/types"
@@ -76,6 +77,7 @@ const (
 	sigHeight       = "C18/genesis/export-height-wrong"
 	sigFmDoc        = "C18/genesis/feemarket-document-not-stored-as-is"
 	sigFmInvalid    = "C18/genesis/invalid-feemarket-document-accepted"
+	sigZeroHeight   = "C18/genesis/zero-height-export-differs"
 )
 
 // same Store contract as the indexer driver: calldata of (key,value) pairs -> SSTORE + LOG1; 1 byte -> SELFDESTRUCT; 2 bytes -> REVERT
@@ -671,16 +673,17 @@ func (d *gdriver) docVsState(g *genV, s *cState, where interface{}) {
 type roundCfg struct {
 	erc20Flag, stakingFlag bool
 	aHeight                string // initial height of chain A: "1", "suite", "high"
-	timing                 string // "genesis" (export right after InitChain), "same-block" (right after the deploying block), "later"
+	timing                 string // "genesis" (export right after InitChain), "first-block" (after the first block, which deploys), "same-block" (right after the deploying block), "later"
 	blocksAfter            int
 	early                  bool
 	bHeight                string // initial height of chain B: "export", "1", "later"
 	bCons                  string // consensus params of chain B: "export", "unlimited-gas", "small-blocks"
 	bChain                 string // chain id of chain B: "same", "other"
+	export                 string // "at-height" (ExportAppStateAndValidators(false)), "zero-height" (forZeroHeight = true: the document a chain is restarted from at height 0)
 }
 
 func (c roundCfg) String() string {
-	return fmt.Sprintf("%v/%v/A@%s/%s+%d/early=%v/B@%s/%s/%s", c.erc20Flag, c.stakingFlag, c.aHeight, c.timing, c.blocksAfter, c.early, c.bHeight, c.bCons, c.bChain)
+	return fmt.Sprintf("%v/%v/A@%s/%s+%d/early=%v/%s/B@%s/%s/%s", c.erc20Flag, c.stakingFlag, c.aHeight, c.timing, c.blocksAfter, c.early, c.export, c.bHeight, c.bCons, c.bChain)
 }
 
 func pick(r *Rng, xs ...string) string { return xs[r.Intn(len(xs))] }
@@ -691,10 +694,11 @@ func (d *gdriver) roundCase(ci int, r *Rng) {
 	t := d.t
 	c0, state0, cp, height := d.base()
 	cfg := roundCfg{erc20Flag: r.Bool(), stakingFlag: r.Bool(),
-		aHeight: pick(r, "suite", "suite", "1", "high"), timing: pick(r, "later", "later", "later", "later", "same-block", "same-block", "same-block", "genesis"),
+		aHeight: pick(r, "suite", "suite", "1", "high"), timing: pick(r, "later", "later", "later", "later", "same-block", "same-block", "same-block", "genesis", "first-block"),
 		bHeight: pick(r, "export", "export", "1", "later"), bCons: pick(r, "export", "export", "unlimited-gas", "small-blocks"), bChain: pick(r, "same", "same", "same", "other")}
 	cfg.blocksAfter = 1 + r.Intn(4)
 	cfg.early = r.Chance(30)
+	cfg.export = pick(r, "at-height", "at-height", "at-height", "at-height", "zero-height")
 	doc := patchGenesis(t, c0, state0, cfg.erc20Flag, cfg.stakingFlag)
 	if cfg.timing == "genesis" {
 		// the state exported is the one InitChain wrote: put boundary params into the genesis document itself
@@ -722,7 +726,19 @@ func (d *gdriver) roundCase(ci int, r *Rng) {
 	if cfg.stakingFlag {
 		h.stakingBy = "genesis"
 	}
-	if cfg.timing != "genesis" {
+	if cfg.timing == "first-block" {
+		// everything happens in the first block after InitChain, the export follows it (a node exporting at its first height)
+		d.applyFm(a, genFm(r, true), "late")
+		if r.Chance(60) {
+			d.applyEvm(a, genEvm(r, true), "late")
+		}
+		h.evmOnly = true
+		for i, n := 0, 2+r.Intn(5); i < n || len(h.ops) == 0; i++ {
+			h.op()
+		}
+		h.flush()
+		cfg.blocksAfter, cfg.early = 0, false
+	} else if cfg.timing != "genesis" {
 		a.RunBlock(nil)
 		if cfg.early {
 			// the history itself runs under params governance has changed
@@ -776,11 +792,33 @@ func (d *gdriver) roundCase(ci int, r *Rng) {
 	if exp1.Height != appA.LastBlockHeight()+1 {
 		d.side.Hit(sigHeight, fmt.Sprintf("export height %d, last block %d", exp1.Height, appA.LastBlockHeight()), where)
 	}
+	if cfg.export == "zero-height" {
+		// the zero-height export rewrites staking / distribution; the custom modules' sections are the same document
+		var exp0 servertypes.ExportedApp
+		var err0 error
+		if p := CatchPanic(func() { exp0, err0 = appA.ExportAppStateAndValidators(true, nil, nil) }); p != nil || err0 != nil {
+			d.side.Count("export:zero-height export not possible (outside the custom modules), exported at height instead")
+			cfg.export = "at-height"
+		} else {
+			g0 := projectGen(t, a, exp0.AppState)
+			for _, m := range []string{"evm", "feemarket", "cpc", "vauth"} {
+				if g1.canon[m] != g0.canon[m] {
+					d.side.Hit(sigZeroHeight+"/"+m, "the zero-height export differs from the export at height in module "+m, where)
+				}
+			}
+			if exp0.Height != 0 {
+				d.side.Hit(sigHeight, fmt.Sprintf("zero-height export says height %d", exp0.Height), where)
+			}
+			exp0.Height = 1 // the chain restarts at its first height
+			exp1, g1 = exp0, g0
+		}
+	}
+	d.side.Count("export:" + cfg.export)
 	{ // the export reads, it does not write; exporting again gives the same document
 		if sA2 := readState(t, appA, a.QueryCtx()); sA2.coq() != sA.coq() {
 			d.side.Hit(sigExportWrites, "the custom modules' stores differ after ExportAppStateAndValidators", where)
 		}
-		exp1b, err := appA.ExportAppStateAndValidators(false, nil, nil)
+		exp1b, err := appA.ExportAppStateAndValidators(cfg.export == "zero-height", nil, nil)
 		require.NoError(t, err)
 		g1b := projectGen(t, a, exp1b.AppState)
 		for _, m := range []string{"evm", "feemarket", "cpc", "vauth"} {
